@@ -33,6 +33,14 @@ public:
   }
 };
 
+/// \brief Compression pointer that loops or points outside the message; always fails the
+/// whole message, also when the name that contains it is part of a record's RDATA
+class DnsCompressionException : public DnsParseException
+{
+public:
+  explicit DnsCompressionException(const std::string &message) : DnsParseException(message) {}
+};
+
 /// \brief DNS message parsing and construction utilities
 class DnsMessage
 {
@@ -593,15 +601,15 @@ DnsMessage::decodeNameWithLoopDetection(const std::uint8_t *data, std::size_t of
       // Check for invalid pointer
       if (pointer >= size)
       {
-        throw DnsParseException("Invalid compression pointer: " + std::to_string(pointer) +
-                                ", message size: " + std::to_string(size));
+        throw DnsCompressionException("Invalid compression pointer: " + std::to_string(pointer) +
+                                      ", message size: " + std::to_string(size));
       }
 
       // Check for compression loops
       if (visitedPointers.find(pointer) != visitedPointers.end())
       {
-        throw DnsParseException("Compression pointer loop detected at offset: " +
-                                std::to_string(pointer));
+        throw DnsCompressionException("Compression pointer loop detected at offset: " +
+                                      std::to_string(pointer));
       }
       visitedPointers.insert(pointer);
 
@@ -686,19 +694,17 @@ inline std::size_t DnsMessage::decodeNameFromRdata(const std::uint8_t *messageDa
       std::uint16_t pointer =
         readUint16(rdata, rdataOffset) & constants::DNS_COMPRESSION_POINTER_MASK;
 
-      // Validate pointer is within message bounds with safety margin for name parsing
-      if (static_cast<std::size_t>(pointer) < messageSize &&
-          (static_cast<std::size_t>(pointer) + 1) <
-            messageSize) // Need at least 1 byte for length field
+      // Validate pointer is within message bounds; a root label in the last byte is a whole name
+      if (static_cast<std::size_t>(pointer) < messageSize)
       {
         decodeName(messageData, pointer, messageSize, name);
         return rdataOffset + 2; // Compression pointer is 2 bytes
       }
       else
       {
-        throw DnsParseException("Invalid compression pointer in RDATA: " + std::to_string(pointer) +
-                                " (message size=" + std::to_string(messageSize) +
-                                ", need at least 1 byte for name length)");
+        throw DnsCompressionException("Invalid compression pointer in RDATA: " +
+                                      std::to_string(pointer) +
+                                      " (message size=" + std::to_string(messageSize) + ")");
       }
     }
   }
@@ -803,6 +809,11 @@ inline void DnsMessage::parseTypedRecord(const DnsResourceRecord &rr, DnsResult 
       // Unknown record type - keep in generic records
       break;
     }
+  }
+  catch (const DnsCompressionException &)
+  {
+    // A bad pointer in an RDATA name is as fatal as one in an owner name
+    throw;
   }
   catch (const std::exception &e)
   {
